@@ -445,6 +445,112 @@ Theorem C17_prefix_no_send_on_full_channel_refuted :
 Proof. exact prefix_no_send_on_full_channel_refuted. Qed.
 Print Assumptions C17_prefix_no_send_on_full_channel_refuted.
 
+(* ==== the SET-UP of a query: every error exit releases what the set-up acquired ====
+   Model SigM.QuerySetup: segment.ExecuteQueryInternalNewPipeline = SetupPipeResQuery (PrepareToRunQuery /
+   InitQueryInfoAndSummary, NewQueryProcessor, SetCleanupCallback) followed by GetFullResult, as the program
+   [setup_code] / [run_code] of acquisitions (resource 0 = the query summary: a ticker and the goroutine
+   QuerySummary.tickWatcher), validations of the request [inp k], lookups of the qid in allRunningQueries, and
+   points at which the rest of the server acts: [env p] is ANY list of CancelQuery / timeout watcher /
+   DeleteQuery / failing hook at point p (before the executor starts, InitDistributedQueryServiceHook,
+   GetDistributedStreamsHook, the last statement of NewQueryProcessor, FilterQsrsHook during the run).
+   [s_live] = what is alive of the query; [s_entry] = its entry in allRunningQueries. *)
+From SigM Require QuerySetup.
+From SigP Require QuerySetupProofs.
+
+(* the discipline "each error exit releases everything acquired before it" ([exits_release], a check of the program
+   text) is sufficient, for every program, every behaviour of the environment and every input *)
+Theorem C17_setup_discipline_sufficient : forall prog env inp s ex s',
+  QuerySetup.exits_release [] prog = true -> QuerySetup.s_live s = [] ->
+  QuerySetup.run_steps env inp prog s = (ex, s') -> ex <> QuerySetup.x_ok -> QuerySetup.s_live s' = [].
+Proof. exact QuerySetupProofs.disciplined_setup_error_exit_releases_all. Qed.
+Print Assumptions C17_setup_discipline_sufficient.
+
+(* the code: whichever error exit SetupPipeResQuery takes (failed to prepare / to create the query processor / to set
+   the cleanup callback), under any cancels, timeouts, deletes and hook failures at any point, nothing is alive afterwards *)
+Theorem C17_setup_error_exit_releases_all : forall env inp present ex s',
+  QuerySetup.run_steps env inp QuerySetup.setup_code
+    (QuerySetup.at_point env QuerySetup.p_before (QuerySetup.init present)) = (ex, s') ->
+  ex <> QuerySetup.x_ok -> QuerySetup.s_live s' = [].
+Proof. exact QuerySetupProofs.setup_error_exit_releases_all. Qed.
+Print Assumptions C17_setup_error_exit_releases_all.
+
+(* a set-up that succeeded has handed the summary over: the entry exists and its cleanup callback releases it *)
+Theorem C17_setup_success_hands_over : forall env inp s s',
+  QuerySetup.run_steps env inp QuerySetup.setup_code s = (QuerySetup.x_ok, s') ->
+  exists e, QuerySetup.s_entry s' = Some e /\ QuerySetup.e_cb e = Some [QuerySetup.r_summary].
+Proof. exact QuerySetupProofs.setup_success_hands_over. Qed.
+Print Assumptions C17_setup_success_hands_over.
+
+(* when ExecuteQueryInternalNewPipeline has returned - on any exit - no goroutine or ticker of the query is alive,
+   and after the handler's DeleteQuery no table entry either *)
+Theorem C17_setup_executor_leaves_nothing : forall env inp present,
+  QuerySetup.s_live (snd (QuerySetup.exec_code env inp (QuerySetup.init present))) = [].
+Proof. exact QuerySetupProofs.exec_code_leaves_nothing. Qed.
+Print Assumptions C17_setup_executor_leaves_nothing.
+
+Theorem C17_setup_nothing_left_after_handler_delete : forall env inp present,
+  let s := QuerySetup.after_delete (snd (QuerySetup.exec_code env inp (QuerySetup.init present))) in
+  QuerySetup.s_entry s = None /\ QuerySetup.s_live s = [].
+Proof. exact QuerySetupProofs.nothing_left_after_handler_delete. Qed.
+Print Assumptions C17_setup_nothing_left_after_handler_delete.
+
+(* the executor sends exactly one final message (COMPLETE = 4 on the ok exit, ERROR = 7 otherwise), whatever the
+   environment sends in between (CANCELLED, TIMEOUT) *)
+Theorem C17_setup_executor_sends_one_final_message : forall setup run deferred env inp s,
+  QuerySetup.s_msgs s = [] ->
+  let '(ex, s') := QuerySetup.exec env inp setup run deferred s in
+  QuerySetupProofs.finals (QuerySetup.s_msgs s') = [if Nat.eqb ex QuerySetup.x_ok then 4%N else 7%N].
+Proof. exact QuerySetupProofs.exec_sends_exactly_one_final_message. Qed.
+Print Assumptions C17_setup_executor_sends_one_final_message.
+
+(* not vacuous: every exit of the code is taken by some environment / input *)
+Theorem C17_setup_every_exit_reachable :
+  fst (QuerySetup.exec_code (fun _ => []) QuerySetupProofs.no_fail (QuerySetup.init true)) = QuerySetup.x_ok /\
+  fst (QuerySetup.exec_code (QuerySetupProofs.env1 QuerySetup.p_dqs [QuerySetup.ADelete]) QuerySetupProofs.no_fail (QuerySetup.init true)) = QuerySetup.x_prepare /\
+  fst (QuerySetup.exec_code (QuerySetupProofs.env1 QuerySetup.p_streams [QuerySetup.AFail]) QuerySetupProofs.no_fail (QuerySetup.init true)) = QuerySetup.x_processor /\
+  fst (QuerySetup.exec_code (fun _ => []) (fun k => Nat.eqb k 2) (QuerySetup.init true)) = QuerySetup.x_processor /\
+  fst (QuerySetup.exec_code (QuerySetupProofs.env1 QuerySetup.p_created [QuerySetup.ATimeout; QuerySetup.ADelete]) QuerySetupProofs.no_fail (QuerySetup.init true)) = QuerySetup.x_callback /\
+  fst (QuerySetup.exec_code (QuerySetupProofs.env1 QuerySetup.p_qsrs [QuerySetup.ADelete]) QuerySetupProofs.no_fail (QuerySetup.init true)) = QuerySetup.x_run.
+Proof. exact QuerySetupProofs.every_exit_reachable. Qed.
+Print Assumptions C17_setup_every_exit_reachable.
+
+(* the variant with ONE deferred `if err != nil { querySummary.Cleanup() }` and `if err := query.SetCleanupCallback(...)`
+   (the inner err shadows the one the closure reads) is refuted: it does not pass the check, a query cancelled and
+   deleted while GetDistributedStreamsHook runs keeps its ticker goroutine, and nothing that follows removes it;
+   on every other exit the variant behaves like the code (which is why only a removal in that window shows it) *)
+Theorem C17_setup_shadowed_err_not_disciplined :
+  QuerySetup.exits_release [] QuerySetup.setup_shadowed = false /\ QuerySetup.exits_release [] QuerySetup.setup_code = true.
+Proof. split; [exact QuerySetupProofs.setup_shadowed_not_disciplined|exact QuerySetupProofs.setup_code_disciplined]. Qed.
+Print Assumptions C17_setup_shadowed_err_not_disciplined.
+
+Theorem C17_setup_shadowed_err_refuted :
+  let '(ex, s) := QuerySetup.exec_shadowed (QuerySetupProofs.env1 QuerySetup.p_streams [QuerySetup.ACancel; QuerySetup.ADelete])
+                    QuerySetupProofs.no_fail (QuerySetup.init true) in
+  ex = QuerySetup.x_callback /\ QuerySetup.s_entry s = None /\ QuerySetup.s_live s = [QuerySetup.r_summary] /\
+  QuerySetup.s_live (QuerySetup.after_delete s) = [QuerySetup.r_summary].
+Proof. exact QuerySetupProofs.shadowed_setup_leaks_summary. Qed.
+Print Assumptions C17_setup_shadowed_err_refuted.
+
+Theorem C17_setup_shadowed_err_leak_is_permanent : forall later : list QuerySetup.action,
+  let s := snd (QuerySetup.exec_shadowed (QuerySetupProofs.env1 QuerySetup.p_streams [QuerySetup.ACancel; QuerySetup.ADelete])
+                  QuerySetupProofs.no_fail (QuerySetup.init true)) in
+  QuerySetup.s_live (fold_left QuerySetup.act later s) = [QuerySetup.r_summary].
+Proof. exact QuerySetupProofs.shadowed_leak_is_permanent. Qed.
+Print Assumptions C17_setup_shadowed_err_leak_is_permanent.
+
+Theorem C17_setup_code_same_schedule_releases :
+  let '(ex, s) := QuerySetup.exec_code (QuerySetupProofs.env1 QuerySetup.p_streams [QuerySetup.ACancel; QuerySetup.ADelete])
+                    QuerySetupProofs.no_fail (QuerySetup.init true) in
+  ex = QuerySetup.x_callback /\ QuerySetup.s_entry s = None /\ QuerySetup.s_live s = [] /\ QuerySetup.s_msgs s = [5%N; 7%N].
+Proof. exact QuerySetupProofs.code_same_schedule_releases. Qed.
+Print Assumptions C17_setup_code_same_schedule_releases.
+
+Theorem C17_setup_shadowed_err_other_exits_release : forall env inp present,
+  fst (QuerySetup.exec_shadowed env inp (QuerySetup.init present)) <> QuerySetup.x_callback ->
+  QuerySetup.s_live (snd (QuerySetup.exec_shadowed env inp (QuerySetup.init present))) = [].
+Proof. exact QuerySetupProofs.shadowed_other_exits_release. Qed.
+Print Assumptions C17_setup_shadowed_err_other_exits_release.
+
 (* ==== lock discipline of the code as it is NOW ====
    coq/gen/GenLocks.v holds the lock / channel skeleton of every function of 19 packages (query admission and execution,
    metadata, writer, searcher, metrics results ...), regenerated from /repo's type-checked source on every run (gotrans
@@ -501,8 +607,8 @@ Print Assumptions C17_no_ring_of_waiting_goroutines.
 (* ---- the running-query table is read and written only under arqMapLock (guarded-by skeletons regenerated from
    /repo on every run; rule C17.* of GenGuardCheck.gb_rules; the withLock* helpers are entered with the lock held
    and are checked where they are inlined into their callers). ---- *)
-From SigP Require GenGuardCheck GenGuardProofs.
+From SigP Require GenGuardCheck GenGuardC17.
 Theorem C17_code_running_query_table_touched_only_under_its_lock : forall r : GenGuardCheck.grule,
   In r GenGuardCheck.c17_grules -> GenGuardCheck.grule_holds r.
-Proof. exact GenGuardProofs.gb_C17_rules_hold. Qed.
+Proof. exact GenGuardC17.gb_C17_rules_hold. Qed.
 Print Assumptions C17_code_running_query_table_touched_only_under_its_lock.
